@@ -615,6 +615,7 @@ func (t *Collection) Len() (l int64, err error) {
 		return 0, nil
 	}
 	err = t.VisitItemsAscendEx(si.Key, false, visitor)
+	t.store.ItemDecRef(t, si)
 	return
 }
 
